@@ -448,6 +448,8 @@ def rule_bracket_swap(ctx):
 
 
 def run(ctx):
+    from . import c09 as _c09b
+    _c09b.rule_equivalence(ctx)     # R09.1: the Kepler drifts of a deferred run add up to those of safe mode (the two-body problem is propagated over the full step)
     from . import edges
     edges.rule_threshold_siblings(ctx, 'R01.13')     # one quantity, one literal, one line: SABACM1 is a corrector type in part1, part2 and synchronize
     rule_bisection_nan(ctx)
